@@ -653,29 +653,10 @@ func txn2Closure(c *Ctx, f *ssa.Function, full bool) {
 			c.Touch(g)
 			in := call.(ssa.Instruction)
 			key := txnOrd(ord, c.KeyAt(g, "own container for "+strings.TrimPrefix(n, "lib/file.(*Container).")))
-			recv := call.Common().Args[0]
-			own := false
-			for _, o := range core.Origins(recv, false) {
-				if oc, ok := o.(*ssa.Call); ok && p.CalleeName(oc) == "lib/file.NewContainer" && oc.Parent() == g {
-					own = true
-				} else {
-					own = false
-					break
-				}
-			}
-			closed := false
-			for _, dc := range core.Calls(g) {
-				if d, ok := dc.(*ssa.Defer); ok && core.Dominates(d, in) && txnReaches(p, d, txnContCloseAll, txnContCloseE) {
-					closed = true
-				}
-			}
-			switch {
-			case !own:
-				c.Bad(key, c.Pos(in), "runs before the rollback defer of commandAction is registered and opens a file in a container it did not create itself: nothing would release it on failure")
-			case !closed:
-				c.Bad(key, c.Pos(in), "runs before the rollback defer of commandAction is registered and no dominating defer closes its container")
-			default:
-				c.Ok(key, c.Pos(in), "runs before the rollback defer, on a container created here and closed by a dominating defer")
+			if why, where := txn2ContainerOwned(p, g, call.Common().Args[0], in, 0); why != "" {
+				c.Bad(key, c.Pos(in), "runs before the rollback defer of commandAction is registered and "+why+": nothing would release the file on failure")
+			} else {
+				c.Ok(key, c.Pos(in), "runs before the rollback defer, on a container created in "+where+" and closed there by a dominating defer")
 			}
 		}
 	}
@@ -837,6 +818,73 @@ func txn2Closure(c *Ctx, f *ssa.Function, full bool) {
 		}
 		c.Bad(keyG, c.FnPos(f), found+": a signal would not cancel the running statements, the deferred rollback would not run before the process is killed")
 	}
+}
+
+// txn2ContainerOwned: the container `recv` used at instruction `at` of g is
+// created by file.NewContainer() in g and closed by a defer of g that dominates
+// `at`; or it is a parameter of g and every caller of g in the program passes a
+// container for which the same holds at the call (followed for two levels: the
+// obligation is judged at the creator). Returns "" and the creator's name, or
+// what is wrong.
+func txn2ContainerOwned(p *core.Prog, g *ssa.Function, recv ssa.Value, at ssa.Instruction, depth int) (why string, where string) {
+	origins := core.Origins(txnThroughCell(recv), false)
+	if len(origins) == 0 {
+		return "opens a file in a container of unknown origin", ""
+	}
+	// created here?
+	allNew, allParam := true, true
+	var param *ssa.Parameter
+	for _, o := range origins {
+		if oc, ok := o.(*ssa.Call); !ok || p.CalleeName(oc) != "lib/file.NewContainer" || oc.Parent() != g {
+			allNew = false
+		}
+		if pa, ok := o.(*ssa.Parameter); ok && (param == nil || param == pa) {
+			param = pa
+		} else {
+			allParam = false
+		}
+	}
+	if allNew {
+		for _, dc := range core.Calls(g) {
+			if d, ok := dc.(*ssa.Defer); ok && core.Dominates(d, at) && txnReaches(p, d, txnContCloseAll, txnContCloseE) {
+				return "", p.FnRef(g)
+			}
+		}
+		return "no dominating defer of " + p.FnRef(g) + " closes the container it creates", ""
+	}
+	if !allParam || param == nil {
+		return "opens a file in a container it neither created itself nor received as a parameter", ""
+	}
+	if depth >= 2 {
+		return "the container is handed down through more than two helpers", ""
+	}
+	idx := -1
+	for i, pa := range g.Params {
+		if pa == param {
+			idx = i
+		}
+	}
+	n := 0
+	for _, e := range p.Callers(g) {
+		caller := e.Caller.Func
+		if e.Site == nil || (caller.Synthetic != "" && caller.Parent() == nil) {
+			return "the helper " + p.FnRef(g) + " that receives the container is called through a wrapper or function value", ""
+		}
+		args := e.Site.Common().Args
+		if e.Site.Common().IsInvoke() || idx < 0 || idx >= len(args) || core.StaticCallee(e.Site) != g {
+			return "the helper " + p.FnRef(g) + " that receives the container is not called statically", ""
+		}
+		n++
+		w, wh := txn2ContainerOwned(p, caller, args[idx], e.Site.(ssa.Instruction), depth+1)
+		if w != "" {
+			return "its caller " + p.FnRef(caller) + " hands it a container for which this does not hold (" + w + ")", ""
+		}
+		where = wh
+	}
+	if n == 0 {
+		return "the helper " + p.FnRef(g) + " receives the container but has no caller in the program", ""
+	}
+	return "", where
 }
 
 // txn2OuterCell maps a value inside closure k (started by `go`) that is a load
